@@ -136,12 +136,12 @@ Print Assumptions C19_sort_is_permutation.
 
 (* table.unpack: list[i..j] for all int64 i, j (defaults 1, #list); the only
    other outcome is the implementation's result limit, raised exactly when
-   j - i >= 256 and i < maxint - 256, with nothing read or changed *)
+   j - i >= 256, with nothing read or changed *)
 Theorem C19_unpack_spec :
   forall i j st, oin64 i -> oin64 j -> in64 (len1 st) ->
   let i0 := match i with Some i => i | None => 1 end in
   let j0 := match j with Some j => j | None => len1 st end in
-  if (256 <=? j0 - i0) && (i0 <? 2^63 - 1 - 256)
+  if 256 <=? j0 - i0
   then run (unpack_im i j) st = (OFail TETooMany, st)
   else run (unpack_im i j) st = (ORet (unpack_spec (m1 st) i0 j0), st).
 Proof. exact unpack_correct. Qed.
